@@ -78,7 +78,7 @@ func do(cl *sut.Client, k *kcase, rq sut.Req) *sut.Resp {
 var badEscapes = []string{"%<a", "%<b", "%<i", "%<p", "%</", "%<!", "%'x", "%>x", "%<s", "%`x", "%<?", "%={", "%a<", "%0<"}
 
 func prepBadEscape(r *rand.Rand, p, m string) string { return badEscapes[r.Intn(len(badEscapes))] }
-func twinBadEscape(string) string                   { return "%zq" }
+func twinBadEscape(string) string                    { return "%zq" }
 
 var schemes = []string{"javascript", "JaVaScRiPt", "data", "vbscript", "java\tscript", "x-javascript", "jar", "file", "http", "ftp", "view-source", "feed"}
 
